@@ -385,6 +385,9 @@ def run(ch):
     dp = info['dp']
     fails = []
     data = b'|'.join(secs[k] for k in sorted(secs))
+    if asm.overflow:
+        # a reference target beyond the reach of its fixed-width form (ref1 over 255 bytes...): no well-formed file has that
+        return Case([], data, 'reference-overflow', nontrivial=False, envelope=False)
     dw = guarded(dg.make_dwarfinfo, secs, dp.le, dp.addr)
     if isinstance(dw, Raised):
         return Case([('DWARFInfo()', 'constructs', dw)], data, repr(dw))
